@@ -19,7 +19,7 @@ def mm_events(ref, est, w):
     return mm(length(ref), length(est), hit(ref, est, w))
 
 
-@contract("mir_eval.util.validate_events", props="C14")
+@contract("mir_eval.util.validate_events", props="C14 C20")
 def validate_events(events: Arr(Real, None), max_time: Real = 30000.0):
     raises(ValueError, when=not valid_events(events, max_time), props="C14")
 
@@ -152,7 +152,7 @@ def validate_frequencies(frequencies: Arr(Real, None), max_freq: Real, min_freq:
     raises(ValueError, when=exists(0, length(frequencies), lambda i: absr(frequencies[i]) > max_freq or absr(frequencies[i]) < min_freq), props="C14")
 
 
-@contract("mir_eval.tempo.validate_tempi", props="C14")
+@contract("mir_eval.tempo.validate_tempi", props="C14 C20")
 def validate_tempi(tempi: Arr(Real, 2), reference: Bool = True):
     raises(ValueError, when=tempi[0] < 0 or tempi[1] < 0 or (reference and tempi[0] == 0 and tempi[1] == 0), props="C14")
 
